@@ -10,7 +10,10 @@ Three groups:
      trust bundles): `restore (snapshot s) = s` for well-formed states, what the header is, that
      IndexRestore wins over every earlier restorer, and the counterexample for rows restored after it;
   C. the cut-point theorem for any deterministic machine and any snapshot format, exact and up to an
-     observational equivalence (the shape `cut_commutes` takes once the shared store model exists).
+     observational equivalence (the shape `cut_commutes` takes once the shared store model exists);
+  D. the shared store model CV.Store: `restore_snapshot_store(_partial/_counterexample)`, `cut_commutes_store`, and
+     their reachable forms `snap_wf_reachable_partial`, `restore_snapshot_reachable_partial`,
+     `cut_commutes_reachable_partial` — for every log that follows the decidable discipline `SnapDisc` and every cut.
 
 Pending the shared store model CV.Store (next round) — full-strength statements kept visible:
 
@@ -28,6 +31,7 @@ Pending the shared store model CV.Store (next round) — full-strength statement
 -/
 import CV.Proofs.Snap
 import CV.Proofs.StoreSnapCex
+import CV.Proofs.StoreSnapReachCex
 namespace CV.Snap
 open CV.Facts.Snap
 
@@ -525,5 +529,44 @@ theorem cut_commutes_store (init : State) (log : Log) (k : Nat) (w : SnapWF (rep
     rw [h, ← replay_append, List.take_append_drop]
   · have h := (replay_repl_agree' (log.drop k) (replay init (log.take k)).repl (replay init (log.take k)) (repl_repl _)).2
     rw [h, ← replayResults_append, List.take_append_drop]
+
+/-! ### reachability: the theorems above hold at every cut of every disciplined history -/
+
+/-- **`SnapWF` is an invariant of the online write paths.** Every state the store model reaches from the empty
+    store by a log that follows `SnapDisc` (CV/Proofs/StoreSnapReach.lean; decidable) is well formed in the sense
+    of the round-trip theorem: all seven tables in key order with one row per key, non-empty kv / tombstone keys,
+    unique node IDs, non-zero node CreateIndex, every service on a stored node (same spelling), every check on a
+    stored node with a non-empty status and — when bound — carrying the name of its stored instance,
+    `session_checks` equal to the links of the live sessions, the index table sorted, lower-cased and covering
+    every row the restorers compute. The discipline excludes: two spellings of one node name (findings
+    `snap:case-folding:*`), an instance key re-registered under another service name
+    (`snap:checks:ServiceName:stale-online-copy`, `snap:kind-service-names:row-stale-after-service-renamed`;
+    `restore_snapshot_store_counterexample`), a session ID created twice, NUL in node names / session IDs,
+    Raft index 0. Proof: a closure walk over the 21 primitive writes of the model (CV/Proofs/StoreLadderK.lean). -/
+theorem snap_wf_reachable_partial (log : Log) (hd : SnapDisc log) : SnapWF (replay State.empty log) :=
+  snapWF_reachable log hd
+
+/-- Restore of the snapshot is the replicated state itself, at the end of every disciplined history. -/
+theorem restore_snapshot_reachable_partial (log : Log) (hd : SnapDisc log) :
+    restoreS (snapshotS (replay State.empty log)) = .ok (replay State.empty log).repl :=
+  restore_snapshot_store _ (snapWF_reachable log hd)
+
+/-- **Cut-point commutation at every cut of every disciplined history** (no well-formedness hypothesis left):
+    snapshot at any `k`, restore on a fresh server, replay the rest — same results, same final replicated state,
+    same answers (result and index) to every read at the cut. -/
+theorem cut_commutes_reachable_partial (log : Log) (hd : SnapDisc log) (k : Nat) :
+    ∃ r, restoreS (snapshotS (replay State.empty (log.take k))) = .ok r ∧
+      replayResults r (log.drop k) = replayResults (replay State.empty (log.take k)) (log.drop k) ∧
+      (replay r (log.drop k)).repl = (replay State.empty log).repl ∧
+      replayResults State.empty log = replayResults State.empty (log.take k) ++ replayResults r (log.drop k) ∧
+      ∀ q : Query, q.run r = q.run (replay State.empty (log.take k)) :=
+  cut_commutes_store State.empty log k (snapWF_reachable _ (hd.take k))
+
+/-- the discipline is closed under prefixes (so the cut may be anywhere) -/
+theorem snap_disc_prefix (log : Log) (hd : SnapDisc log) (k : Nat) : SnapDisc (log.take k) := hd.take k
+
+/-- non-vacuity: a disciplined log with a registration (node, service, bound check), a session, a key written and
+    deleted, a prepared query and a deregistration -/
+theorem sample_log_disciplined : SnapDisc SnapCex.sampleLog := SnapCex.sampleLog_disc
 
 end CV.Store
